@@ -134,6 +134,7 @@ func runC18(a *A) {
 			a.Und("send-has-done-arm", token.NoPos, "no send on the input buffer found in the strategies")
 		}
 	})
+	a.Rule("locks/released-on-recovered-panic", 8, func() { a.ruleLockReleasedOnRecoveredPanic() })
 	a.Rule("flow/panic-containment", 4, func() {
 		si := a.sinkInfo()
 		for _, c := range si.calls {
@@ -417,4 +418,185 @@ func (a *A) ruleCloses() {
 		a.Und("close", token.NoPos, "no close of a struct-field channel found")
 	}
 	a.Ok("close(dataChan)", token.NoPos, "no close of Stream.dataChan anywhere in the module (producers observe nil instead)")
+}
+
+// ruleLockReleasedOnRecoveredPanic: a panic raised while a row is processed is contained by a deferred
+// recover (flow/panic-containment) so that later rows still run. That only works if the mutexes taken
+// on the way are released by the unwinding: a lock acquired in a function that runs under a recover
+// (the function itself or a synchronous caller has one) and held across a call that can run code
+// supplied by the user (a predicate or expression program, a registered function, a callback or sink)
+// must be released by a deferred Unlock — an explicit Unlock after the call is skipped by the panic,
+// the recover swallows it and every later row blocks on the mutex.
+func (a *A) ruleLockReleasedOnRecoveredPanic() int {
+	L := a.Locks()
+	// functions running under a recover: recover functions and everything they call synchronously
+	var roots []*ssa.Function
+	for _, fn := range a.ModFuncs {
+		if fn.Blocks != nil && hasRecover(fn) {
+			roots = append(roots, fn)
+		}
+	}
+	under := a.ReachFrom(roots)
+	user := a.reachesUserCode()
+	n := 0
+	for _, fn := range a.ModFuncs {
+		if !under[fn] || fn.Blocks == nil {
+			continue
+		}
+		deferred := map[lockKey]bool{}
+		allInstrs(fn, func(in ssa.Instruction) {
+			if d, ok := in.(*ssa.Defer); ok {
+				if k, op, ok := lockOp(&d.Call); ok && (op == "Unlock" || op == "RUnlock") {
+					deferred[k] = true
+				}
+			}
+		})
+		type fk struct{ k lockKey }
+		reported := map[fk]bool{}
+		okKeys := map[fk]token.Pos{}
+		allInstrs(fn, func(in ssa.Instruction) {
+			c, ok := in.(*ssa.Call)
+			if !ok {
+				return
+			}
+			if _, _, isLock := lockOp(&c.Call); isLock {
+				return
+			}
+			why := user.call(a, c)
+			if why == "" {
+				return
+			}
+			for k := range L.Held(in) {
+				if _, atEntry := L.entry[fn][k]; atEntry {
+					continue // the caller's lock: judged at the caller's call of fn
+				}
+				if deferred[k] {
+					if _, seen := okKeys[fk{k}]; !seen {
+						okKeys[fk{k}] = c.Pos()
+					}
+					continue
+				}
+				if reported[fk{k}] {
+					continue
+				}
+				reported[fk{k}] = true
+				n++
+				a.Check(false, fmt.Sprintf("%s#%s-released-on-panic", fname(fn), k), c.Pos(), "",
+					fmt.Sprintf("%s is held across %s and released by an explicit Unlock, while a deferred recover up the stack contains panics: a panic in that call leaves the mutex locked for good and every later row blocks", k, why))
+			}
+		})
+		for k, pos := range okKeys {
+			if !reported[k] {
+				n++
+				a.Check(true, fmt.Sprintf("%s#%s-released-on-panic", fname(fn), k.k), pos, fmt.Sprintf("%s is held across code supplied by the user and released by a deferred Unlock", k.k), "")
+			}
+		}
+	}
+	return n
+}
+
+// userCode: which module functions can run code supplied by the user of the library.
+type userCode struct {
+	reach map[*ssa.Function]string
+}
+
+// call: does this call run user code? Returns a description, or "".
+func (u *userCode) call(a *A, c *ssa.Call) string {
+	if why := directUserCall(a, &c.Call); why != "" {
+		return why
+	}
+	if sc := c.Call.StaticCallee(); sc != nil {
+		if w := u.reach[sc]; w != "" {
+			return "the call of " + fname(sc) + " (which reaches " + w + ")"
+		}
+		return ""
+	}
+	// dynamic call resolved by the call graph
+	if node := a.CG().Nodes[c.Parent()]; node != nil {
+		for _, e := range node.Out {
+			if e.Site == ssa.CallInstruction(c) && e.Callee != nil {
+				if w := u.reach[e.Callee.Func]; w != "" {
+					return "a call that can reach " + w
+				}
+			}
+		}
+	}
+	return ""
+}
+
+// directUserCall: the program of an expression engine (expr-lang Run/Eval), a registered function's
+// Execute/Validate through the Function interfaces, or a func-typed value that was not made in the module
+// (a callback, a sink).
+func directUserCall(a *A, cc *ssa.CallCommon) string {
+	if sc := cc.StaticCallee(); sc != nil {
+		if sc.Pkg != nil && strings.HasPrefix(sc.Pkg.Pkg.Path(), "github.com/expr-lang/expr") && (sc.Name() == "Run" || sc.Name() == "Eval") {
+			return "expr-lang " + sc.Name() + " (user functions run inside the program)"
+		}
+		return ""
+	}
+	if cc.IsInvoke() {
+		if nt, ok := types.Unalias(cc.Value.Type()).(*types.Named); ok && nt.Obj().Pkg() != nil && nt.Obj().Pkg().Path() == modPath+"/functions" {
+			switch cc.Method.Name() {
+			case "Execute", "Validate", "Add", "Result", "New", "Apply":
+				return "the registered function's " + cc.Method.Name() + " (functions." + nt.Obj().Name() + ")"
+			}
+		}
+		return ""
+	}
+	// a call of a function value
+	for _, l := range phiLeaves(cc.Value) {
+		switch l.(type) {
+		case *ssa.MakeClosure, *ssa.Function, *ssa.Builtin:
+			continue
+		}
+		return "a call of the function value " + TermOf(cc.Value, nil).String()
+	}
+	return ""
+}
+
+func (a *A) reachesUserCode() *userCode {
+	u := &userCode{reach: map[*ssa.Function]string{}}
+	// direct
+	for _, fn := range a.ModFuncs {
+		if fn.Blocks == nil {
+			continue
+		}
+		allInstrs(fn, func(in ssa.Instruction) {
+			if u.reach[fn] != "" {
+				return
+			}
+			if c, ok := in.(*ssa.Call); ok {
+				if w := directUserCall(a, &c.Call); w != "" {
+					u.reach[fn] = w
+				}
+			}
+		})
+	}
+	// transitive over synchronous call edges
+	for changed := true; changed; {
+		changed = false
+		for _, fn := range a.ModFuncs {
+			if u.reach[fn] != "" {
+				continue
+			}
+			node := a.CG().Nodes[fn]
+			if node == nil {
+				continue
+			}
+			for _, e := range node.Out {
+				if _, isGo := e.Site.(*ssa.Go); isGo {
+					continue
+				}
+				if _, isDefer := e.Site.(*ssa.Defer); isDefer {
+					continue
+				}
+				if e.Callee != nil && u.reach[e.Callee.Func] != "" {
+					u.reach[fn] = u.reach[e.Callee.Func]
+					changed = true
+					break
+				}
+			}
+		}
+	}
+	return u
 }
